@@ -44,6 +44,8 @@ def resolved(cfg, x):
 def random_time(rng, cfg):
     t0, t1 = cfg['t0'], cfg['t0'] + cfg['span']
     r = rng.random()
+    if t0 < 0.0 < t1 and rng.random() < 0.12:
+        return 0.0  # a split point that is falsy in Python
     if r < 0.1:
         return rng.choice([t0, t1])
     if r < 0.18:
@@ -70,6 +72,12 @@ def random_history(rng, cfg, n):
                 cur = nxt
             if rng.random() < 0.5:  # backward sweep over the same grid
                 hist += list(reversed(hist[-k:]))
+        elif r < 0.36 and cfg['tol'] == 0:
+            k = rng.choice([2, 4, 8])
+            step = cfg['span'] / k
+            grid = [t0 + i * step for i in range(k)] + [t1]
+            sweep = list(zip(grid[:-1], grid[1:]))
+            hist += sweep if rng.random() < 0.6 else list(reversed(sweep))
         elif r < 0.4 and hist:
             hist.append(rng.choice(hist))
         else:
@@ -159,11 +167,13 @@ def pieces_defect(bm, cfg, s, t):
     return out
 
 
-def search_chen(rng, n_cfg, n_hist, n_triples, tol=1e-8, allow_cache0=False):
+def search_chen(rng, n_cfg, n_hist, n_triples, tol=1e-8, allow_cache0=False, force=None):
     """Random configs/histories/triples on the real BrownianInterval; returns (failures, stats)."""
     fails, stats = [], dict(configs=0, queries=0, triples=0, max_defect=0.0)
     for _ in range(n_cfg):
         cfg = random_config(rng, allow_cache0=allow_cache0)
+        if force:
+            cfg.update({k: (rng.choice(v) if isinstance(v, list) else v) for k, v in force.items()})
         try:
             bm = build(cfg)
             hist = random_history(rng, cfg, n_hist)
